@@ -23,7 +23,7 @@ type Clause struct {
 	Arg   string // at_call: callee pattern; trace: pattern
 	Loop  int
 	Line  string // file:line
-	Ord   int // ordinal among clauses of the same kind in the block
+	Ord   int    // ordinal among clauses of the same kind in the block
 }
 
 func (c *Clause) appliesTo(prop string) bool {
@@ -46,25 +46,25 @@ type TraceDecl struct {
 }
 
 type Contract struct {
-	Pkg      string // package path
-	Func     string // function key, e.g. "(*Dir).addNode", "ReadArguments", "Try$1"
-	Props    []string
-	Clauses  []*Clause
-	Modifies []string
-	ModAll   bool
-	HasMod   bool
-	Pure     bool
-	Trusted  bool
-	Extern   bool
-	Inline   bool // callers inline the body instead of using the contract
-	Traces   []*TraceDecl
-	Mode     string
-	OnlyLayers map[string]bool
-	SkipKinds  map[string]bool
-	File     string
-	ParamNames []string // for extern/iface contracts: declared parameter names
+	Pkg         string // package path
+	Func        string // function key, e.g. "(*Dir).addNode", "ReadArguments", "Try$1"
+	Props       []string
+	Clauses     []*Clause
+	Modifies    []string
+	ModAll      bool
+	HasMod      bool
+	Pure        bool
+	Trusted     bool
+	Extern      bool
+	Inline      bool // callers inline the body instead of using the contract
+	Traces      []*TraceDecl
+	Mode        string
+	OnlyLayers  map[string]bool
+	SkipKinds   map[string]bool
+	File        string
+	ParamNames  []string // for extern/iface contracts: declared parameter names
 	ResultNames []string
-	Used     bool
+	Used        bool
 }
 
 func (c *Contract) Key() string { return c.Pkg + "." + c.Func }
@@ -108,16 +108,16 @@ type Axiom struct {
 }
 
 type ContractDB struct {
-	Funcs  map[string]*Contract // key: pkgpath.FuncKey
-	Ifaces map[string]*Contract // key: pkgpath.Iface.Method
-	FuncTypes map[string]*Contract // key: pkgpath.TypeName (named function types)
-	Types  map[string]*TypeSpec // key: pkgpath.Type
-	Specs  map[string]*SpecFunc
-	Axioms []*Axiom
-	Globals map[string]string // pkg.Name -> "nonnil"
+	Funcs       map[string]*Contract // key: pkgpath.FuncKey
+	Ifaces      map[string]*Contract // key: pkgpath.Iface.Method
+	FuncTypes   map[string]*Contract // key: pkgpath.TypeName (named function types)
+	Types       map[string]*TypeSpec // key: pkgpath.Type
+	Specs       map[string]*SpecFunc
+	Axioms      []*Axiom
+	Globals     map[string]string // pkg.Name -> "nonnil"
 	GhostFields map[string]string // name -> spec type
-	Files  []string
-	Errors []string
+	Files       []string
+	Errors      []string
 }
 
 func NewContractDB() *ContractDB {
